@@ -195,7 +195,7 @@ NEEDS_DONORS = {'insert': 1, 'append': 1, 'setitem': 1}
 REFUSALS = (IndexError, ValueError)
 
 
-ATTACHED_KINDS = ['mid', 'head_tok', 'tail_tok', 'head_tree', 'tail_tree']
+ATTACHED_KINDS = ['mid', 'head_tok', 'tail_tok', 'head_tree', 'tail_tree', 'deleted']
 
 
 def attached_donor(kind, other, scaf_name):
@@ -271,6 +271,15 @@ def make_rep(scaf_name, n, op, facet, step=None, attached=False, twin=False, pre
                 except REFUSALS:
                     return
                 docenv.tree_invariant(f, what='tree after the first operation (%s at %s)' % (pre, pi))
+        victim = None
+        if attached == 'deleted':     # a tree node removed with `del` (not pop) keeps pointing at this document: it must be refused as a donor
+            with NoTracing():
+                pos = next((x for x, it in enumerate(raw) if isinstance(it, M.RawTreeModel)), None)
+                if pos is None:
+                    return
+                victim = raw[pos]
+                del raw[pos]
+                docenv.tree_invariant(f, what='tree after del raw[%d]' % pos)
         with NoTracing():
             ref = list(raw)
         k = pick(k, 0, max(max_k, 1))
@@ -279,7 +288,11 @@ def make_rep(scaf_name, n, op, facet, step=None, attached=False, twin=False, pre
         with NoTracing():
             donors = [sc.donors[x]() for x in kinds]
             src = None
-            if attached and k:
+            if attached == 'deleted' and k:
+                src, donors[bad_] = f, victim
+                src_before = Snapshot(src.token_store)
+                src_dump = tree_dump(src)
+            elif attached and k:
                 src, donors[bad_] = attached_donor(attached, other, scaf_name)
                 src_before = Snapshot(src.token_store)
                 src_dump = tree_dump(src)
@@ -448,8 +461,11 @@ for _scaf in SCAFFOLDS:
             if _n == 0 and _op == 'setitem':
                 continue
             for _kind in ATTACHED_KINDS:
-                quick = (_scaf in ('note_tags', 'txn_postings', 'file_dirs') and _n == 2 and _kind in ('mid', 'tail_tok', 'head_tree')
-                         and _op in ('insert', 'setitem', 'setslice', 'extend'))
+                if _kind == 'deleted' and _scaf not in ('txn_postings', 'txn_meta', 'posting_meta', 'file_dirs'):
+                    continue      # token items are free once deleted
+                quick = ((_scaf in ('note_tags', 'txn_postings', 'file_dirs') and _n == 2 and _kind in ('mid', 'tail_tok', 'head_tree')
+                          and _op in ('insert', 'setitem', 'setslice', 'extend'))
+                         or (_kind == 'deleted' and _scaf in ('txn_postings', 'file_dirs') and _n == 3 and _op in ('setslice', 'setitem', 'insert')))
                 _reg(make_rep(_scaf, _n, _op, 'refuse', attached=_kind), {'C19': Q if quick else T, 'C05': Q if (quick and _kind != 'mid' and _op != 'extend') else T},
                      900, 'rep/refuse-attached',
                      _bounds(_scaf, _n, _op) + '; one donor (symbolic position in the batch) is a node attached elsewhere (%s)' % _kind, cost=300)
